@@ -100,6 +100,7 @@ class Ctx:
 
 	def child(self, **kw) -> 'Ctx':
 		c = Ctx(dict(self.env), self.tags, self.depth, self.in_loop, self.ret, set(self.readonly))
+		c.in_closure = getattr(self, 'in_closure', False)
 		for k, v in kw.items():
 			setattr(c, k, v)
 		return c
@@ -146,7 +147,8 @@ class ProgGen:
 		if c <= 5 or depth <= 0:
 			return self.scalar()
 		if c <= 7:
-			return ('list', self.pick([T_INT, T_INT, T_STR, T_BOOL, T_FLOAT]) if depth < 2 or self.chance(0.8) else ('list', T_INT))
+			elems = [T_INT, T_INT, T_STR, T_FLOAT] + ([T_BOOL] if self.on('list-bool') else [])
+			return ('list', self.pick(elems) if depth < 2 or self.chance(0.8) else ('list', T_INT))
 		if c <= 9:
 			return ('dict', self.pick([T_INT, T_STR]), self.pick([T_INT, T_INT, T_STR, T_BOOL]))
 		return ('tuple', self.scalar(), self.scalar())
@@ -246,7 +248,8 @@ class ProgGen:
 			seqs = [n for n, ty in cx.env.items() if ty[0] in ('list', 'dict', 'str')]
 			if seqs:
 				cx.tags.add('len')
-				return (f'len({self.pick(seqs)})', P_ATOM)
+				# x.size() is unsigned: bare len() only where signedness cannot matter (guards `len(x) > k`, indices), int(len(x)) elsewhere
+				return (f'len({self.pick(seqs)})', P_ATOM) if self.on('len-unsigned') else (f'int(len({self.pick(seqs)}))', P_ATOM)
 		if c == 20:
 			lists = [n for n, ty in cx.env.items() if ty == ('list', T_INT)]
 			if lists and self.on('index'):
@@ -303,6 +306,12 @@ class ProgGen:
 			cx.tags.add('compare')
 			ot = self.pick([T_INT, T_INT, T_INT, T_STR, T_FLOAT])
 			ops = ['<', '>', '==', '>=', '<=', '!='] if ot != T_STR else ['==', '!=', '<', '>']
+			if ot == T_STR and not self.on('str-literal-compare'):
+				names = self.names_of(cx, T_STR)
+				if not names:
+					ot = T_INT
+				else:
+					return (f'{self.pick(names)} {self.pick(ops)} {self.wrap(self.expr(cx, ot, d - 1), P_BOR)}', P_CMP)
 			return (f'{self.wrap(self.expr(cx, ot, d - 1), P_BOR)} {self.pick(ops)} {self.wrap(self.expr(cx, ot, d - 1), P_BOR)}', P_CMP)
 		if c <= 10:
 			cx.tags.add('not')
@@ -363,6 +372,12 @@ class ProgGen:
 			return self.leaf(cx, T_STR)
 		if c <= 6:
 			cx.tags.add('str-concat')
+			if not self.on('str-literal-concat'):
+				# known finding: "a" + "b" is rendered as two C string literals (no operator+); keep a named operand on the left
+				names = self.names_of(cx, T_STR)
+				if not names:
+					return self.leaf(cx, T_STR)
+				return (f'{self.pick(names)} + {self.wrap(self.e_str(cx, t, d - 1), P_MUL)}', P_ADD)
 			return (f'{self.wrap(self.e_str(cx, t, d - 1), P_ADD)} + {self.wrap(self.e_str(cx, t, d - 1), P_MUL)}', P_ADD)
 		if c == 7:
 			cx.tags.add('cast-str')
@@ -398,7 +413,9 @@ class ProgGen:
 				src = f'range({self.pick(["2", "3", "4"])})'
 			else:
 				srcs = self.names_of(cx, ('list', src_t))
-				src = self.pick(srcs) if srcs else py_lit([self.sample_value(src_t) for _ in range(3)])
+				if not srcs:  # a comprehension over a list *literal* has no C++ spelling (initializer list of initializer lists)
+					return ('[' + ', '.join(self.wrap(self.expr(cx, et, max(0, d - 1)), P_TERN) for _ in range(2)) + ']', P_ATOM)
+				src = self.pick(srcs)
 			proj = self.wrap(self.expr(inner, et, 1), P_TERN)
 			cond = f' if {self.wrap(self.e_bool(inner, T_BOOL, 1), P_OR)}' if self.chance(0.4) else ''
 			if cond:
@@ -424,7 +441,10 @@ class ProgGen:
 		inner = cx.child()
 		inner.env[var] = t[1]
 		srcs = self.names_of(cx, ('list', t[1]))
-		src = self.pick(srcs) if srcs else py_lit(sorted({self.sample_value(t[1]) for _ in range(3)}, key=lambda x: (str(type(x)), x)))
+		if not srcs:
+			keys = sorted({self.sample_value(t[1]) for _ in range(2)}, key=lambda x: (str(type(x)), x))
+			return ('{' + ', '.join(f'{py_lit(k)}: {self.wrap(self.expr(cx, t[2], max(0, d - 1)), P_TERN)}' for k in keys) + '}', P_ATOM)
+		src = self.pick(srcs)
 		return (f'{{{var}: {self.wrap(self.expr(inner, t[2], 1), P_TERN)} for {var} in {src}}}', P_ATOM)
 
 	def e_tuple(self, cx: Ctx, t, d: int):
@@ -629,7 +649,7 @@ class ProgGen:
 				return [f'{ind}{a}, {b} = {n}']
 		if c == 31 and cx.depth > 0 and self.on('closure') and cx.ret is not None:
 			return self.closure(cx, ind)
-		if c == 32 and self.on('lambda'):
+		if c == 32 and self.on('lambda') and (not getattr(cx, 'in_closure', False) or self.on('lambda-in-closure')):
 			return self.lambda_stmt(cx, ind)
 		if c == 33 and cx.in_loop and self.on('break-continue'):
 			cx.tags.add('break-continue')
@@ -738,6 +758,7 @@ class ProgGen:
 		inner = Ctx({n: t for n, t in cx.env.items() if t[0] in ('int', 'str', 'bool', 'float')}, cx.tags, 1, False, rt, set(cx.env))
 		inner.env[p] = pt
 		inner.readonly.add(p)
+		inner.in_closure = True
 		body = [f'{ind}\t{l.lstrip()}' if False else l for l in self.block(inner, ind + '\t', self.rnd.randint(0, 1), new_scope=False)] if self.chance(0.5) else []
 		ret = f'{ind}\treturn {self.wrap(self.expr(inner, rt, 2), 0)}'
 		cx.readonly.update(n for n in cx.env)
@@ -800,7 +821,8 @@ class ProgGen:
 			if src is not None and self.chance(0.7):
 				lines.append(f'\t\tself.{f} = {src}')
 			else:
-				lines.append(f'\t\tself.{f} = {self.wrap(self.expr(cx, t, 1), 0)}')
+				# known finding: the member-initialiser re-parse (CppViewHelper.Initializer) only understands single-line values
+				lines.append(f'\t\tself.{f} = {self.wrap(self.expr(cx, t, 1 if self.on("ctor-complex-init") else 0), 0)}')
 		lines.append('')
 		self.classes[name] = info
 		# methods
